@@ -9,7 +9,7 @@ from . import gen
 
 def _knobs(rng, *, conc=True):
     return {
-        "mode": rng.choice(["threads", "procs"]),
+        "mode": rng.choice(["threads", "procs", "forked"]),
         "line_preempt": conc and rng.random() < 0.25,
         "pool": rng.choice(["serial", "sim", "sim"]),
         "pool_workers": rng.choice([1, 2, 3, 16]),
@@ -18,6 +18,10 @@ def _knobs(rng, *, conc=True):
         "state_digest": rng.random() < 0.1,
         "clock_jump": rng.choice([0.0, 0.0, 0.2]),
     }
+
+
+FILE_PAIRS = [("out.tsv", "sib.tsv"), ("out.tsv", "sib.tsv"), ("exp.fold0.tsv", "exp.fold1.tsv"), ("run.tsv", "run.v2.tsv"), ("a.tsv", "a_b.tsv"),
+              ("res 1.tsv", "res 2.tsv"), ("Out.tsv", "out.tsv"), ("x.y.z.tsv", "x.y.tsv"), ("ß.tsv", "s.tsv"), ("data.tsv", "data_panoptica_aggregator_tmp2.tsv")]
 
 
 def _inputs(rng, spec, n, **kw):
@@ -73,17 +77,18 @@ def plan_c17(seed: int, *, faults=True) -> dict:
     names = gen.subject_names(rng, rng.randint(1, 5))
     subj_input = {s: rng.choice(sorted(inputs)) for s in names}
     sibling = rng.random() < 0.4
-    files = {"out.tsv": {"initial": rng.choice(["absent", "absent", "empty", "header", "rows"]), "log_times": rng.random() < 0.2}}
-    if files["out.tsv"]["initial"] == "rows":
+    MAIN, SIB = rng.choice(FILE_PAIRS)
+    files = {MAIN: {"initial": rng.choice(["absent", "absent", "empty", "header", "rows"]), "log_times": rng.random() < 0.2}}
+    if files[MAIN]["initial"] == "rows":
         k = rng.randint(1, len(names))
-        files["out.tsv"]["initial_subjects"] = [[s, subj_input[s]] for s in names[:k]]
+        files[MAIN]["initial_subjects"] = [[s, subj_input[s]] for s in names[:k]]
     sib_names = []
     if sibling:
-        files["sib.tsv"] = {"initial": rng.choice(["absent", "absent", "header", "rows"]), "log_times": files["out.tsv"]["log_times"] if rng.random() < 0.7 else not files["out.tsv"]["log_times"]}
+        files[SIB] = {"initial": rng.choice(["absent", "absent", "header", "rows"]), "log_times": files[MAIN]["log_times"] if rng.random() < 0.7 else not files[MAIN]["log_times"]}
         # deliberately overlapping subject names between the two files
         sib_names = [s for s in names if rng.random() < 0.7] or names[:1]
-        if files["sib.tsv"]["initial"] == "rows":
-            files["sib.tsv"]["initial_subjects"] = [[s, subj_input[s]] for s in sib_names[: rng.randint(1, len(sib_names))]]
+        if files[SIB]["initial"] == "rows":
+            files[SIB]["initial_subjects"] = [[s, subj_input[s]] for s in sib_names[: rng.randint(1, len(sib_names))]]
     n_sessions = rng.randint(1, 4)
     phases = []
 
@@ -102,7 +107,7 @@ def plan_c17(seed: int, *, faults=True) -> dict:
         end = "graceful"
         if faults and not last:
             end = rng.choice(["kill", "kill", "kill", "interrupt", "graceful"])
-        sess = {"group": f"A{si}", "aggs": ["out.tsv"], "tasks": mk_tasks(0, names, rng.randint(1, 3)), "end": end,
+        sess = {"group": f"A{si}", "aggs": [MAIN], "tasks": mk_tasks(0, names, rng.randint(1, 3)), "end": end,
                 "path_kind": rng.choice(["str", "path"])}
         if not last and rng.random() < 0.3:
             # a partial submission: only some subjects in this session
@@ -115,14 +120,14 @@ def plan_c17(seed: int, *, faults=True) -> dict:
             same_group = rng.random() < 0.5
             if same_group:
                 # one script, two aggregators, shared locks
-                sess["aggs"] = ["out.tsv", "sib.tsv"]
+                sess["aggs"] = [MAIN, SIB]
                 if rng.random() < 0.5:
                     sess["aggs"].reverse()
                     for t in sess["tasks"]:
                         for op in t:
                             op[1] = 1
                 sess["share_evaluator"] = rng.random() < 0.5
-                sib_idx = sess["aggs"].index("sib.tsv")
+                sib_idx = sess["aggs"].index(SIB)
                 extra = mk_tasks(sib_idx, sib_names, rng.randint(1, 2))
                 sess["tasks"] = sess["tasks"] + extra
                 rng.shuffle(sess["tasks"])
@@ -130,7 +135,7 @@ def plan_c17(seed: int, *, faults=True) -> dict:
                 send = "graceful"
                 if faults and not last and rng.random() < 0.3:
                     send = "kill"
-                s2 = {"group": f"B{si}", "aggs": ["sib.tsv"], "tasks": mk_tasks(0, sib_names, rng.randint(1, 2)), "end": send}
+                s2 = {"group": f"B{si}", "aggs": [SIB], "tasks": mk_tasks(0, sib_names, rng.randint(1, 2)), "end": send}
                 if send != "graceful":
                     s2["fault_frac"] = rng.random()
                 sessions.append(s2)
@@ -215,9 +220,31 @@ def gen_stub(rng, n_inputs):
     pool = ["num_ref_instances", "num_pred_instances", "tp", "fp", "fn", "prec", "rec", "rq", "sq", "sq_std", "pq", "sq_dsc", "sq_dsc_std", "pq_dsc",
             "sq_assd", "sq_assd_std", "sq_rvd", "sq_rvd_std", "global_bin_dsc", "global_bin_iou"]
     keys = rng.sample(pool, rng.randint(1, 8))
+    # per column: independent values, or values clustered around a large base (large compared
+    # with their spread: counts, volumes), or one constant
+    mode = {}
+    for g in groups:
+        for m in keys:
+            r = rng.random()
+            if r < 0.15:
+                base = rng.choice([2.0**27, 1e6, 1e9, 123456789.0, 2.0**40, 1e12, 33554432.0])
+                mode[(g, m)] = ("cluster", base, rng.choice([1, 1, 3, 0.5, 1e-3]))
+            elif r < 0.2:
+                mode[(g, m)] = ("const", rng.choice([0.0, 1.0, 0.5, 1e6 + 0.1]))
+            else:
+                mode[(g, m)] = ("free",)
+
+    def val(g, m):
+        md = mode[(g, m)]
+        if md[0] == "free" or rng.random() < 0.1:
+            return _stub_value(rng)
+        if md[0] == "const":
+            return ["f", float(md[1]).hex()]
+        return [rng.choice(["f", "F"]), float(md[1] + md[2] * rng.randint(0, 6)).hex()]
+
     values = {}
     for i in range(n_inputs):
-        values[f"k{i}"] = {g: {m: _stub_value(rng) for m in keys} for g in groups}
+        values[f"k{i}"] = {g: {m: val(g, m) for m in keys} for g in groups}
     return {"groups": groups, "keys": keys, "values": values}
 
 
@@ -231,11 +258,28 @@ def _stubify(plan, rng):
 _plan_c18_real = plan_c18
 
 
+def _reorder_later_sessions(plan, rng):
+    """A later session declares the same class groups in another order (a restart with the
+    'same' setup written differently): it must be refused or file its values correctly."""
+    spec = plan["spec"]
+    groups = spec["stub"]["groups"] if spec.get("stub") else (spec.get("groups") or [])
+    if len(groups) < 2 or len(plan["phases"]) < 2:
+        return
+    for ph in plan["phases"][1:]:
+        if rng.random() < 0.4:
+            order = list(range(len(groups)))
+            rng.shuffle(order)
+            if order != sorted(order):
+                for sess in ph["sessions"]:
+                    sess["spec_variant"] = {"group_order": order}
+
+
 def plan_c18(seed: int) -> dict:  # noqa: F811
     rng = random.Random(seed ^ 0x57B)
     plan = _plan_c18_real(seed)
     if rng.random() < 0.3:
         _stubify(plan, rng)
+    _reorder_later_sessions(plan, rng)
     return plan
 
 
